@@ -409,6 +409,11 @@ def _v_fw_upper_triangle(tree):
     M.replace_stmt(inner[0], lambda s: M.src_is(s, "dist[i][j] = dist[i][k] + dist[k][j]"), lambda s: [s] + M.stmts("if not directed:\n    dist[j][i] = dist[i][j]"))
 
 
+def _v_goal_bound_eq(tree):
+    g = M.find_func(tree, "dijkstra")
+    M.replace_expr(g, lambda e: isinstance(e, ast.Lambda) and M.src_has(e, "s == goal"), M.expr("goal.__eq__"))
+
+
 def _t_fw_swap_ij(tree):
     g = M.find_func(tree, "floyd_warshall")
     outer = [s for s in g.body if isinstance(s, ast.For) and M.src_is(s.target, "k")][0]
@@ -444,5 +449,6 @@ VARIANTS = [
     M.Variant("twin: reformat a_star", AS, _t_reformat, None),
     M.Variant("twin: reformat bfs", BS, _t_reformat, None),
     M.Variant("floyd_warshall relaxes only the cells above the diagonal when undirected (seed C11-C)", FW, _v_fw_upper_triangle, "C11-O5"),
+    M.Variant("dijkstra's goal test is the bound method goal.__eq__ (seed C11-F)", DJ, _v_goal_bound_eq, "C11-G4"),
     M.Variant("twin: floyd_warshall i/j loops swapped", FW, _t_fw_swap_ij, None),
 ]
